@@ -3,12 +3,14 @@
 The agent gets only the property text and a scratch worktree — nothing from /verif."""
 import json, sys
 pid = sys.argv[1]; wt = sys.argv[2]
+import os
+HINT = os.environ.get('SEED_HINT', 'interactions between two features of the library, rarely used entry points or options, boundary values, error/cleanup paths, resource reuse across calls, ordering of two concurrent operations')
 import glob, os
 prior = []
 for d in sorted(glob.glob(f"/verif/seeded/{pid}-*/meta.json")):
     try: prior.append(" ".join(str(json.load(open(d)).get("summary","")).split())[:400])
     except Exception: pass
-ROUND = ("\n\nOther people have already produced the following changes for this property; do NOT repeat them or close variants of them — find different mechanisms, different code locations and different triggering conditions (prefer: interactions between two features of the library, rarely used entry points or options, boundary values, error/cleanup paths, resource reuse across calls, ordering of two concurrent operations):\n" + "\n".join(f"- {x}" for x in prior)) if prior else ""
+ROUND = ("\n\nOther people have already produced the following changes for this property; do NOT repeat them or close variants of them — find different mechanisms, different code locations and different triggering conditions (prefer: " + HINT + "):\n" + "\n".join(f"- {x}" for x in prior)) if prior else ""
 p = [json.loads(l) for l in open('/verif/properties.jsonl') if json.loads(l)['id'] == pid][0]
 OUT = (f"""You are testing how well a verification effort can detect regressions in the Go XMPP library mellium/xmpp. You have your own scratch git worktree of the library at {wt} (a detached checkout; work ONLY inside it and inside {wt}_out — do not read or write anything under /verif, do not touch /repo itself). Offline Go environment for every shell call: export GOFLAGS=-mod=mod GOPROXY=off GOSUMDB=off GOTOOLCHAIN=local ; always pass -timeout 120s to go test.
 
